@@ -3,6 +3,7 @@ import TxVerif.Tie.Skeleton
 import TxVerif.Props.C14Release
 open TxVerif
 #print axioms resize_preserves
+#print axioms resize_no_collision
 #print axioms limit_persisted
 #print axioms grow_exact
 #print axioms shrink_no_growth
